@@ -82,7 +82,8 @@ PkgSeq(t) ==
     [] t.k = "map"    -> PkgSeq(t.key) \o PkgSeq(t.e)
     [] t.k = "func"   -> PkgSeqVars(t.ps) \o PkgSeqVars(t.rs)
     [] t.k = "struct" -> Flatten([i \in 1..Len(t.fs) |-> PkgSeq(t.fs[i].t)])
-    [] t.k = "union"  -> Flatten([i \in 1..Len(t.ts) |-> PkgSeq(t.ts[i])])
+    [] t.k = "union"  -> Flatten([i \in 1..Len(t.ts) |-> PkgSeq(t.ts[i])])      \* every term, with or without tilde
+    [] t.k = "plain"  -> PkgSeq(t.e)
     [] t.k = "iface"  -> Flatten([i \in 1..Len(t.ms) |-> PkgSeqVars(t.ms[i].ps) \o PkgSeqVars(t.ms[i].rs)])
                          \o Flatten([i \in 1..Len(t.es) |-> PkgSeq(t.es[i])])
 
